@@ -322,7 +322,13 @@ func (n *node) boot() error {
 }
 
 func newNode(c *eng.Ctx, rng *rand.Rand, wt bool) (*node, error) {
-	dir, err := os.MkdirTemp("", "c32-")
+	base := "" // sqlite fsyncs dominate the per-history cost on a busy disk: prefer a memory file system
+	if os.Getenv("TMPDIR") == "" {
+		if st, err := os.Stat("/dev/shm"); err == nil && st.IsDir() {
+			base = "/dev/shm"
+		}
+	}
+	dir, err := os.MkdirTemp(base, "c32-")
 	if err != nil {
 		return nil, err
 	}
@@ -794,7 +800,7 @@ func (n *node) taskCount() int {
 }
 
 func run(c *eng.Ctx) error {
-	ntr := c.N(120, 2500)
+	ntr := c.N(120, 2000)
 	stdlog.SetOutput(io.Discard) // goose (sqlite migrations) logs through the standard logger
 	defer stdlog.SetOutput(os.Stderr)
 	var ferr error
